@@ -69,6 +69,8 @@ type c11Interp struct {
 	done     []c11Out // paths that ended at a loop back edge (ctl c11Back) or in a panic
 	funcs    map[*types.Func]*FuncInfo
 	litInfo  map[*ast.FuncLit]*c11Frame // the frame a function literal was created in
+	concrete bool                       // finite-domain mode: lists are computed, loops are unrolled (c11_list.go)
+	initHeap map[int]*c11Obj            // struct values of the concrete input
 }
 
 func c11NewInterp(pkgs ...*packages.Package) *c11Interp {
@@ -150,6 +152,9 @@ func (it *c11Interp) eval(fr *c11Frame, st *c11St, e ast.Expr) []c11SV {
 			return one(it.unk(st, "instantiation"))
 		}
 		return it.evalN(fr, st, []ast.Expr{x.X, x.Index}, func(s *c11St, vs []*c11V) *c11V {
+			if v, ok := it.listIndex(s, vs[0], vs[1]); ok {
+				return v
+			}
 			return it.load(s, &c11V{k: "index", xs: []*c11V{vs[0], vs[1]}})
 		})
 	case *ast.SliceExpr:
@@ -171,6 +176,9 @@ func (it *c11Interp) eval(fr *c11Frame, st *c11St, e ast.Expr) []c11SV {
 			}
 			if idx[1] >= 0 {
 				hi = vs[idx[1]]
+			}
+			if v, ok := it.listSlice(s, vs[0], lo, hi); ok {
+				return v
 			}
 			return &c11V{k: "slice", xs: []*c11V{vs[0], lo, hi}}
 		})
@@ -396,6 +404,9 @@ func (it *c11Interp) evalLit(fr *c11Frame, st *c11St, x *ast.CompositeLit) []c11
 	}
 	return it.evalN(fr, st, es, func(s *c11St, vs []*c11V) *c11V {
 		if !isStruct {
+			if _, isSlice := t.Underlying().(*types.Slice); isSlice && it.concrete {
+				return c11List(vs)
+			}
 			return &c11V{k: "lit", typ: t, xs: vs, id: it.fresh()}
 		}
 		o := &c11Obj{typ: tt, f: map[string]*c11V{}}
@@ -444,6 +455,9 @@ func (it *c11Interp) evalCall(fr *c11Frame, st *c11St, call *ast.CallExpr) []c11
 		return it.evalN(fr, st, args, func(s *c11St, vs []*c11V) *c11V {
 			for i := range vs {
 				vs[i] = it.copyStruct(s, vs[i]) // struct values are passed / appended by value
+			}
+			if v, ok := it.listBuiltin(fr, s, bn, call, vs); ok {
+				return v
 			}
 			v := &c11V{k: "call", name: bn, xs: vs, typ: mk}
 			if bn == "make" || bn == "new" {
